@@ -67,6 +67,11 @@ def build_sn(sn: Dict[str, bool]) -> List[str]:
                                                                                  "<SHORT-NAME>m</SHORT-NAME><LONG-NAME>V.m</LONG-NAME>", 1))
         v.dops.append(og.dop("V.dop", "n", og.dct_standard("A_UINT32", 16)).replace("<SHORT-NAME>n</SHORT-NAME>",
                                                                                    "<SHORT-NAME>n</SHORT-NAME><LONG-NAME>V.dop</LONG-NAME>", 1))
+    if sn["adop"] or sn["gdop"]:
+        # a table row of A that names its data object by short name, included in a table of V by TABLE-ROW-REF
+        a.tables.append(og.tag("TABLE", og.sn("TA") + og.tag("TABLE-ROW", og.sn("RA") + "<KEY>1</KEY>" +
+                                                              og.snref("DATA-OBJECT-PROP-SNREF", "n"), ID="A.row"), ID="A.tab"))
+        v.tables.append(og.tag("TABLE", og.sn("TV") + og.ref("TABLE-ROW-REF", "A.row"), ID="V.tab"))
     a.requests.append(og.request("RQ.A", "RQA", [og.p_const8("sid", 0x22, bytepos=0), og.p_value("p", None, dop_snref="n", bytepos=1)]))
     a.diag_comms.append(og.service("DC.A", "svcA", "RQ.A"))
     v.requests.append(og.request("RQ.V", "RQV", [og.p_const8("sid", 0x2E, bytepos=0), og.p_value("p", None, dop_snref="n", bytepos=1)]))
@@ -94,7 +99,7 @@ def _load(docs: List[str]) -> Tuple[Any, str, bool]:
 def process(recs: List[Dict[str, Any]]) -> Dict[str, Any]:
     from odxtools.utils import retarget_snrefs
     fails: List[Tuple[str, Dict[str, Any]]] = []
-    st = {"id_loads": 0, "unresolved": 0, "dontcare": 0, "imported_targets": 0, "sn_loads": 0, "retargets": 0, "sn_unresolved": 0, "removals": 0, "removal_unresolved": 0}
+    st = {"id_loads": 0, "unresolved": 0, "dontcare": 0, "imported_targets": 0, "sn_loads": 0, "retargets": 0, "sn_unresolved": 0, "removals": 0, "removal_unresolved": 0, "table_rows": 0}
 
     def fail(clause: str, detail: Dict[str, Any]) -> None:
         if len(fails) < 300:
@@ -189,6 +194,20 @@ def process(recs: List[Dict[str, Any]]) -> Dict[str, Any]:
                 fail("snref_bound_to_wrong_object", {**base, "where": "A", "expected": rec["a"], "bound_to": pa.dop.long_name})
             if pv.dop.long_name != rec["v"]:
                 fail("snref_bound_to_wrong_object", {**base, "where": "V", "expected": rec["v"], "bound_to": pv.dop.long_name})
+            if rec["row"] != "none":
+                st["table_rows"] += 1
+                try:
+                    row = a.diag_data_dictionary_spec.tables.TA.table_rows.RA
+                    inc = list(v.diag_layer_raw.diag_data_dictionary_spec.tables.TV.table_rows)
+                    if row.dop is None or row.dop.long_name != rec["row"]:
+                        fail("snref_bound_to_wrong_object", {**base, "where": "table row of A", "expected": rec["row"],
+                                                             "bound_to": getattr(row.dop, "long_name", None)})
+                    if len(inc) != 1 or inc[0] is not row:
+                        fail("snref_bound_to_wrong_object", {**base, "where": "row included by TABLE-ROW-REF", "expected": "A's row",
+                                                             "bound_to": [getattr(x, "short_name", "?") for x in inc]})
+                except Exception as e:  # noqa: BLE001
+                    fail("snref_bound_to_wrong_object", {**base, "where": "table row of A", "expected": rec["row"],
+                                                         "exc": f"{type(e).__name__}: {str(e)[:80]}"})
             # re-targeting to V rebinds the reference of the inherited request to V's view
             st["retargets"] += 1
             try:
